@@ -2,6 +2,7 @@ package main
 
 import (
 	"fmt"
+	"reflect"
 	"strings"
 	"syscall"
 
@@ -24,7 +25,8 @@ import (
 //	nassuci <imsi:text-hex> <mncLen>       → ok <identity in REGISTRATION REQUEST> <identity in DEREGISTRATION REQUEST>: the contents of
 //	                                          the 5GS mobile identity IE (LV-E at octet 5) cut out of the octets that the real
 //	                                          nasTestpacket.GetRegistrationRequest / GetDeregistrationRequest produce, as RegisterUE / DeregisterUE call them
-//	ngplmn <imsi:text-hex> <mncLen>        → ok <GlobalGNBID plmn> <BroadcastPLMN plmn> <ULI NR-CGI plmn> <ULI TAI plmn>
+//	ngplmn <imsi:text-hex> <mncLen>        → ok <GlobalGNBID plmn> <BroadcastPLMN plmn> <NR-CGI plmn of InitialUEMessage>
+//	                                          <the one value of every PLMNIdentity in InitialUEMessage, UplinkNASTransport, UEContextReleaseComplete>
 //	                                          (the expression of ngsetup.go line 23, then the real builders)
 //	ngsetup <imsi:text-hex> <mnc:text-hex> → the same two NG Setup fields, taken from the octets the real
 //	                                          stgutg.ManageNGSetup writes to its (socketpair) connection
@@ -63,13 +65,32 @@ func init() {
 		mncLen := int(aI64(a[1]))
 		mobilePLMN := stgutg.EncodeSuci([]byte(strings.TrimPrefix(imsi, "imsi-")), mncLen).Buffer[1:4]
 		gnb, bc := ngSetupPlmns(ngapTestpacket.BuildNGSetupRequest(mobilePLMN))
-		// a later message of the same run: the user location information copies the package variable TestPlmn
+		// later messages of the same run: every PLMNIdentity inside the emulator-path messages that carry a user
+		// location information (NR-CGI and TAI) copies the package variable TestPlmn
 		ium := ngapTestpacket.BuildInitialUEMessage(1, []byte{0x7e}, "")
-		var cgi, tai []byte
+		var cgi []byte
 		for _, ie := range ium.InitiatingMessage.Value.InitialUEMessage.ProtocolIEs.List {
 			if ie.Id.Value == ngapType.ProtocolIEIDUserLocationInformation {
-				nr := ie.Value.UserLocationInformation.UserLocationInformationNR
-				cgi, tai = nr.NRCGI.PLMNIdentity.Value, nr.TAI.PLMNIdentity.Value
+				cgi = ie.Value.UserLocationInformation.UserLocationInformationNR.NRCGI.PLMNIdentity.Value
+			}
+		}
+		var all [][]byte
+		for _, pdu := range []ngapType.NGAPPDU{ium, ngapTestpacket.BuildUplinkNasTransport(1, 1, []byte{0x7e}),
+			ngapTestpacket.BuildUEContextReleaseComplete(1, 1, nil)} {
+			n := len(all)
+			collectPlmns(reflect.ValueOf(pdu), &all)
+			if len(all)-n < 2 { // NR-CGI and TAI at least
+				return "err"
+			}
+		}
+		tai := all[0]
+		for _, v := range all {
+			if string(v) != string(all[0]) { // not all the same: show them all
+				tai = nil
+				for _, w := range all {
+					tai = append(tai, w...)
+				}
+				break
 			}
 		}
 		return "ok " + hx(gnb) + " " + hx(bc) + " " + hx(cgi) + " " + hx(tai)
@@ -120,6 +141,30 @@ func init() {
 		gnb, bc := ngSetupPlmns(*pdu)
 		return "ok " + hx(gnb) + " " + hx(bc)
 	})
+}
+
+var plmnType = reflect.TypeOf(ngapType.PLMNIdentity{})
+
+// collectPlmns appends the value of every PLMNIdentity reachable from v
+func collectPlmns(v reflect.Value, out *[][]byte) {
+	switch v.Kind() {
+	case reflect.Ptr, reflect.Interface:
+		if !v.IsNil() {
+			collectPlmns(v.Elem(), out)
+		}
+	case reflect.Struct:
+		if v.Type() == plmnType {
+			*out = append(*out, []byte(v.Interface().(ngapType.PLMNIdentity).Value))
+			return
+		}
+		for k := 0; k < v.NumField(); k++ {
+			collectPlmns(v.Field(k), out)
+		}
+	case reflect.Slice, reflect.Array:
+		for k := 0; k < v.Len(); k++ {
+			collectPlmns(v.Index(k), out)
+		}
+	}
 }
 
 func ngSetupPlmns(pdu ngapType.NGAPPDU) (gnb, bc []byte) {
